@@ -30,13 +30,21 @@ NG = ["uint8", "uint16", "uint32", "uint64", "float32"]
 
 @st.composite
 def affine_st(draw):
-    kind = draw(st.sampled_from(["diag", "rot", "rot", "shear"]))
+    kind = draw(st.sampled_from(["diag", "rot", "rot", "shear", "tilt"]))
     vs = [draw(st.one_of(st.sampled_from([1.0, 0.5, 0.02, 2.0, 50.0, 0.001]),
                          st.floats(0.001, 50))) * draw(
                              st.sampled_from([1, 1, -1])) for _ in range(3)]
     A = np.diag(vs)
     if kind != "diag":
         q = np.array([draw(st.floats(-1, 1)) for _ in range(4)])
+        if kind == "tilt":
+            # an almost axis-aligned acquisition: a rotation by a tiny angle,
+            # direction cosines within 1e-12 of whole numbers without being
+            # whole numbers
+            eps = draw(st.sampled_from([1e-6, 5e-7, 1e-7, 3e-6, 1e-5, 1e-8]))
+            axis = draw(st.integers(1, 3))
+            q = np.array([1.0, 0.0, 0.0, 0.0])
+            q[axis] = eps / 2
         if np.linalg.norm(q) < 1e-2:
             q = np.array([1.0, 0.2, 0.3, 0.4])
         w, x, y, z = q / np.linalg.norm(q)
@@ -278,13 +286,16 @@ def check_case(ctx, case):
                          "the NIfTI affine at %s nm" % (
                              i.tolist(), ng[:3].tolist(), nii[:3].tolist()))
         # compact URL form
-        s = tr.matrix_as_compact_urlsafe_json(T.tolist())
-        if any(ch in s for ch in ", \n\t\"'"):
-            ctx.fail("compact form %r is not URL-safe" % s)
-        back = np.array(json.loads(s.replace("_", ",")), dtype=float)
-        if back.shape != (4, 4) or not np.array_equal(back, T):
-            ctx.fail("compact URL form %r does not parse back to the matrix"
-                     % s)
+        # (given as Python floats and as NumPy scalars - the library itself
+        # passes the NumPy values it has computed)
+        for rows in (T.tolist(), [[np.float64(x) for x in row] for row in T]):
+            s = tr.matrix_as_compact_urlsafe_json(rows)
+            if any(ch in s for ch in ", \n\t\"'"):
+                ctx.fail("compact form %r is not URL-safe" % s)
+            back = np.array(json.loads(s.replace("_", ",")), dtype=float)
+            if back.shape != (4, 4) or not np.array_equal(back, T):
+                ctx.fail("compact URL form %r does not parse back to the "
+                         "matrix %s" % (s, T.tolist()))
         # sharding
         sh = info["scales"][0].get("sharding")
         if want_shard is None:
